@@ -239,6 +239,24 @@ def rename_idents(toks, mapping, log):
     return out
 
 
+def r14_digit_from_bytes(toks, log):
+    """R14: `u64 :: from_be_bytes (`  ->  `bn_u64_from_be_bytes (`  (also `from_le_bytes`, all four digit
+    types).  core's signature `[u8; size_of::<Self>()]` cannot be named in an `assume_specification`,
+    so the call goes to a trusted `external_body` wrapper declared by the overlay unit."""
+    out = []
+    i = 0
+    n = len(toks)
+    while i < n:
+        if toks[i] in ('u8', 'u16', 'u32', 'u64') and i + 3 < n and toks[i + 1] == '::' and toks[i + 2] in ('from_be_bytes', 'from_le_bytes') and toks[i + 3] == '(' and (i == 0 or toks[i - 1] != '::'):
+            out.append('bn_' + toks[i] + '_' + toks[i + 2])
+            log['R14'] = log.get('R14', 0) + 1
+            i += 3
+            continue
+        out.append(toks[i])
+        i += 1
+    return out
+
+
 def const_to_fn(const_toks, assoc, log):
     """R3 for definitions.  `[vis] const X : T = e ;`
        associated  -> `[vis] const fn X ( ) -> T { e }`
